@@ -5,6 +5,14 @@ ROOT = os.path.dirname(os.path.dirname(os.path.abspath(__file__)))
 MC = "model_checking"
 checks = [
  # id, level, engine, technique, text, note, design_ref
+ ("C02", MC, "E1",
+  "bounded-exhaustive enumeration of all small-grid rings / two-ring polygons / two-member multi-polygons / boxes x the full half-integer query grid on the real Within vs an integer-arithmetic oracle; affine images for points with exactly verified margin",
+  "Every ring of 3-4 vertices over {0..3}^2 (repeated vertices, self-intersections, closed and unclosed), every two-ring polygon and two-member multi-polygon over the 504 triangles of {0..2}^2, every box, at every half-integer grid point; the compound receivers over all short vertex lists. Exact because all coordinates are small (half-)integers.",
+  "Trusts the 30-line integer classifier in checks/c02. Larger rings and other coordinate values are outside the bound.", "4/C02"),
+ ("C03", MC, "E1",
+  "bounded-exhaustive enumeration of the full reversal x rotation x closing orbit of a catalogue of valid (multi-)polygons, and of all short line strings x query points, on the real code vs exact integer arithmetic",
+  "For 7 shells x all valid hole subsets the complete orbit of every per-ring reversal, start rotation and closed/unclosed spelling is evaluated for Area, the alternately wound ones for Polygon.Centroid/op.Area/op.Centroid, every closed spelling for MultiPolygon.Centroid; all line strings of <= 4 points on a 3x3 grid x 49 query points for Length/Distance; Buffer over radius x segments x centre.",
+  "Trusts the integer shoelace/centroid sums in checks/c03; shapes with more than 8 vertices per ring and non-integer coordinates are outside the bound.", "4/C03"),
  ("C04", MC, "E1",
   "bounded-exhaustive enumeration of structure trees x coordinate substitutions and of all box pairs/triples on the real code vs an independent traversal / interval algebra",
   "Every structure tree of the eight types within the stated member/length/depth bounds, with every single (quick) or single+double (thorough) substitution of -0/+Inf/-Inf, and every pair/triple of lattice boxes incl. the empty box is executed on the real package and compared with an independent reference; complete within the bound, silent beyond it.",
